@@ -489,7 +489,14 @@ func (a *Activation) applyContract(con *FuncContract, fn *ssa.Function, args []V
 				t.errs = t.errs[:ne]
 				continue
 			}
+			n0 := len(t.asserts)
 			t.assume(st.pc, v)
+			if c.Kind == "ensures" && len(t.asserts) > n0 && !con.Trusted {
+				if t.assertTag == nil {
+					t.assertTag = map[int]*assertTag{}
+				}
+				t.assertTag[n0] = &assertTag{con, c.Src}
+			}
 		}
 	}
 	for _, r := range res {
